@@ -57,6 +57,9 @@ def tpl_group(size, kb, conc, who, s, o1, a1, o3, a3, settle0, t, order, _twin=F
                     it.release(a1)
                 elif o1 == 2:
                     it.cancel(a1)
+                elif o1 == 3:
+                    it.flush(True)
+                    w.settle()
             w.ticks(t)
             # unknown name: must raise and change nothing
             before = _snapshot(w, pool)
@@ -151,14 +154,89 @@ def _final(w, it, pool, size, who, ra, rb, done):
     return 0
 
 
+def tpl_sgroup(size, who, o1, a1, o3, a3, settle0, t, _twin=False):
+    """SimpleTaskPool: group 'start-group-0' = start(3) is cancelled (cancel_group / cancel_all) t iterations after the
+    request, or after it settled and one task was released/cancelled; a second start(2) is the sibling."""
+    from asyncio_taskpool import SimpleTaskPool
+    w = World("c07.sgroup")
+    code = 0
+    try:
+        pool = SimpleTaskPool(w.worker(0), pool_size=size)
+        it = Interp(w, pool, cbkind=0)
+        did = False
+        try:
+            rb = it.start(3)
+            ra = it.start(2)
+            if settle0 == 1:
+                w.settle()
+                if o1 == 1:
+                    it.release(a1)
+                elif o1 == 2:
+                    it.cancel(a1)
+            w.ticks(t)
+            ids_b = set(pool.get_group_ids(rb["group"]))
+            started_b = [x for x in w.W if x["id"] in ids_b]
+            nstarted = len(w.W)
+            if who == 0:
+                w.op("cgroup", rb["group"])
+                e = w.do_cancel_group(pool, rb["group"])
+                if e is not None:
+                    code = 710
+                it._mark_cancelled(rb)
+            else:
+                it.cancel_all()
+            did = True
+            unfinished = [x["wid"] for x in started_b if x["state"] == "run"]
+            if o3 == 1:
+                it.release(a3)
+            elif o3 == 2:
+                it.cancel(a3)
+            w.settle()
+            w.drain()
+        except Excluded as e:
+            w.excluded = str(e)
+        code = code or w.err
+        if not code and not w.excluded and did:
+            # ids are handed out in creation order: a task created after the cancellation has a new id; every such
+            # task must belong to the sibling group (who == 0) or must not exist at all (cancel_all)
+            later = [x for x in w.W[nstarted:]]
+            if who == 1 and later:
+                code = 701
+            for x in later:
+                if who == 0:
+                    try:
+                        if x["id"] not in pool.get_group_ids(ra["group"]):
+                            code = 701
+                    except PoolException:
+                        code = 706
+            for x in w.W:
+                if x["wid"] in unfinished and (x["state"] != "cancelled" or x["cancels"] != 1):
+                    code = code or 703
+            try:
+                pool.get_group_ids(rb["group"])
+                code = code or 704
+            except InvalidGroupName:
+                pass
+            if who == 1 and pool._task_groups:
+                code = code or 709
+            if who == 0 and size >= 1 and not code:
+                if len(pool.get_group_ids(ra["group"])) != 2:
+                    code = 706
+        if _twin and not code and not w.excluded and did and unfinished and len(started_b) < 3:
+            code = 77
+        return code
+    finally:
+        w.close(code)
+
+
 def families(tier):
     thorough = tier == "thorough"
     P = ["size", "kb", "conc", "who", "s", "o1", "a1", "o3", "a3", "settle0", "t", "order"]
-    pre = ["size >= 0", "0 <= kb <= 2", "1 <= conc <= 3", "0 <= who <= 1", "0 <= s <= 3", "0 <= o1 <= 2", "a1 >= 0",
+    pre = ["size >= 0", "0 <= kb <= 2", "1 <= conc <= 3", "0 <= who <= 1", "0 <= s <= 3", "0 <= o1 <= 3", "a1 >= 0",
            "0 <= o3 <= 2", "a3 >= 0", "0 <= settle0 <= 1", "t >= 0", "0 <= order <= 1", "settle0 == 1 or o1 == 0", "kb >= 1 or conc == 1"]
     if not thorough:
-        pre += ["kb <= 1", "kb == 0 or conc == 2", "1 <= size <= 3", "s == 0 or o3 >= 1", "s == 0 or settle0 == 1", "o1 <= 1",
-                "settle0 == 0 or order == 0", "a1 <= 2", "a3 <= 2", "s == 0 or who == 0"]
+        pre += ["kb <= 1", "kb == 0 or conc == 2", "1 <= size <= 3", "s == 0 or o3 >= 1", "s == 0 or settle0 == 1", "o1 <= 1 or o1 == 3",
+                "settle0 == 0 or order == 0", "a1 <= 2", "a3 <= 2", "s == 0 or who == 0", "o1 != 3 or s == 0"]
         parts = []
         for kb in (0, 1):
             for who in (0, 1):
@@ -170,6 +248,8 @@ def families(tier):
                     base = ["kb == %d" % kb, "who == %d" % who, "settle0 == 1", "s == %d" % s_]
                     parts.append(base + ["o1 == 0"])
                     parts += [base + ["o1 == 1", "a1 == %d" % a] for a in range(3)]
+                    if s_ == 0:
+                        parts.append(base + ["o1 == 3"])
     else:
         pre += ["conc <= 2", "size <= 4", "s == 0 or o3 >= 1", "s == 0 or settle0 == 1", "settle0 == 0 or order == 0", "a1 <= 3", "a3 <= 3"]
         parts = []
@@ -179,7 +259,13 @@ def families(tier):
                     parts.append(["kb == %d" % kb, "who == %d" % who, "settle0 == 0", "s == 0", "order == %d" % order])
                 for s_ in range(4):
                     base = ["kb == %d" % kb, "who == %d" % who, "settle0 == 1", "s == %d" % s_]
-                    parts += [base + ["o1 == %d" % o] for o in range(3)]
-    return [Family(name="group", fn="tpl_group", params=P, pre=pre, parts=parts,
+                    parts += [base + ["o1 == %d" % o] for o in range(4)]
+    PS = ["size", "who", "o1", "a1", "o3", "a3", "settle0", "t"]
+    pres = ["size >= 0", "0 <= who <= 1", "0 <= o1 <= 2", "a1 >= 0", "0 <= o3 <= 2", "a3 >= 0", "0 <= settle0 <= 1", "t >= 0",
+            "settle0 == 1 or o1 == 0"] + (["size <= 3", "a1 <= 2", "a3 <= 2", "o3 <= 1"] if not thorough else ["size <= 5", "a1 <= 4", "a3 <= 4"])
+    sfam = Family(name="sgroup", fn="tpl_sgroup", params=PS, pre=pres,
+                  parts=parts_product(who=(0, 1), settle0=(0, 1), o3=(0, 1) if not thorough else (0, 1, 2)),
+                  twin_pre=["who == 0", "settle0 == 1", "o3 == 0", "o1 == 0"], twin_args=[2, 0, 0, 0, 0, 0, 1, 9])
+    return [sfam, Family(name="group", fn="tpl_group", params=P, pre=pre, parts=parts,
                    twin_pre=["kb == 1", "who == 0", "s == 0", "settle0 == 1", "o1 == 0", "o3 == 0", "conc == 2"],
                    twin_args=[3, 1, 2, 0, 0, 0, 0, 0, 0, 1, 9, 0])]
